@@ -9,6 +9,7 @@ var (
 	ErrWorkSpaceIsNotReady      = errors.New("non-ready workSpace")
 	ErrWorkSpaceIsNotMining     = errors.New("non-mining workSpace")
 	ErrWorkSpaceIsNotStill      = errors.New("non-registered or non-ready workSpace")
+	ErrPlotterQueueIsFull       = errors.New("too many pending plot requests")
 	ErrWorkSpaceCannotGenerate  = errors.New("not allowed to generate new workSpace")
 
 	ErrMassDBWrongFileName        = errors.New("db file name not standard")
